@@ -18,7 +18,7 @@ a triple (`writeNull` against `WriteValues` of a null `Value`) is `storeNull` / 
 SPEC side: `resolveN` (the documented meaning: every field of the group is looked up by name in the
 map, a missing key is a null member, extra keys are ignored) followed by the Dremel `shredN`. -/
 namespace PqModel.MapToGroup
-open PqModel.Dremel PqModel.TypedPath
+open PqModel.Dremel PqModel.TypedPath PqModel.NullScan
 
 /-- `m[name]` / `m.MapIndex(name)` on the entries of a Go map -/
 def mlookup : List Val → Nat → Val
@@ -457,16 +457,157 @@ theorem wvF_congr : ∀ (fs : GFields) (r d : Nat) (es es' : List Val),
     simp only [wvF]
     rw [h name (by simp [namesF]), wvF_congr fs r d es es' (fun x hx => h x (by simp [namesF, hx]))]
 
-/-! ## the map field on an OPTIONAL group node (mirror only, no theorem yet) -/
+/-! ## the map field on an OPTIONAL group node -/
 
 /-- MIRROR: `writeRowsFuncOfStruct` wraps the writer of a map field whose schema node is an optional
 GROUP with `writeRowsFuncOfOptional` (`column_buffer_write.go:606-627`; bitmap branch, null index of
 map types: the nil map is null) over `writeRowsFuncOfMapToGroup`. Rows: `Val.some map` / `Val.none`.
-One `GenericBuffer[struct{ M map[string]V }].Write(batch)`, any / default branches.
-OPEN: `m2gOptWrite fs batch = joinSegs … (batch.map (shredN (.opt (.group …)) 0 0 0 ∘ resolve))`
-(needs `wrOptional_sound` for writers that resolve their rows first). -/
+One `GenericBuffer[struct{ M map[string]V }].Write(batch)`, any / default branches
+(theorem `maptogroup_optional_member_eq_reflect`). -/
 def m2gOptWrite (fs : GFields) (batch : List Val) : Cols :=
   if batch.isEmpty then List.replicate (leavesF (eraseGF fs)) []
   else wrOptional (leavesF (eraseGF fs)) (wrM2GVal fs) 0 0 0 batch
+
+/-! ## the predicate is exact: a row that fails `okF` leaves a level without value -/
+
+/-- some column of an optional buffer (`0 < dm`) holds an entry at the maximum level without value -/
+def HasHole : Cols → List Nat → Prop
+  | c :: cs, dm :: dms => (0 < dm ∧ ∃ t ∈ c, hole dm t = true) ∨ HasHole cs dms
+  | _, _ => False
+
+theorem hasHole_append_left : ∀ {a : Cols} {da : List Nat} (b : Cols) (db : List Nat),
+    HasHole a da → HasHole (a ++ b) (da ++ db)
+  | c :: cs, dm :: dms, b, db, h => by
+    simp only [List.cons_append, HasHole] at h ⊢
+    rcases h with h | h
+    · exact Or.inl h
+    · exact Or.inr (hasHole_append_left b db h)
+  | [], _, _, _, h => by simp [HasHole] at h
+  | _ :: _, [], _, _, h => by simp [HasHole] at h
+
+theorem hasHole_append_right : ∀ {a : Cols} {da : List Nat} {b : Cols} {db : List Nat},
+    a.length = da.length → HasHole b db → HasHole (a ++ b) (da ++ db)
+  | [], [], _, _, _, h => by simpa using h
+  | c :: cs, dm :: dms, _, _, hl, h => by
+    simp only [List.cons_append, HasHole]
+    exact Or.inr (hasHole_append_right (by simpa using hl) h)
+  | [], _ :: _, _, _, hl, _ => by simp at hl
+  | _ :: _, [], _, _, hl, _ => by simp at hl
+
+theorem wvN_length (n : GNode) (r d d0 : Nat) (v : Val) :
+    (wvN n r d v).length = (maxDefsN n d0).length := by
+  rw [wvN_eq_shred n r 0 d v, shredN_length, maxDefsN_length]
+
+mutual
+theorem wvN_hole (n : GNode) (top : Bool) (r d : Nat) (v : Val)
+    (hk : okN n top v = false) (ht : top = false → 0 < d) :
+    HasHole (wvN n r d v) (maxDefsN n d) := by
+  cases n with
+  | leaf =>
+    cases v with
+    | prim x => simp [okN] at hk
+    | none => simp only [okN] at hk; simp [wvN, maxDefsN, HasHole, hole, ht hk]
+    | some w => simp only [okN] at hk; simp [wvN, maxDefsN, HasHole, hole, ht hk]
+    | struct vs => simp only [okN] at hk; simp [wvN, maxDefsN, HasHole, hole, ht hk]
+    | list ws => simp only [okN] at hk; simp [wvN, maxDefsN, HasHole, hole, ht hk]
+  | opt n =>
+    cases v with
+    | some w =>
+      simp only [wvN, maxDefsN]
+      exact wvN_hole n false r (d + 1) w (by simpa [okN] using hk) (fun _ => by omega)
+    | none => simp [okN] at hk
+    | prim x => simp [okN] at hk
+    | struct vs => simp [okN] at hk
+    | list ws => simp [okN] at hk
+  | group fs =>
+    cases v with
+    | list es => simp only [wvN, maxDefsN]; exact wvF_hole fs top r d (Option.some es) (by simpa [okN] using hk) ht
+    | none => simp only [wvN, maxDefsN]; exact wvF_hole fs top r d Option.none (by simpa [okN] using hk) ht
+    | prim x => simp only [wvN, maxDefsN]; exact wvF_hole fs top r d Option.none (by simpa [okN] using hk) ht
+    | struct vs => simp only [wvN, maxDefsN]; exact wvF_hole fs top r d Option.none (by simpa [okN] using hk) ht
+    | some w => simp only [wvN, maxDefsN]; exact wvF_hole fs top r d Option.none (by simpa [okN] using hk) ht
+theorem wvF_hole (fs : GFields) (top : Bool) (r d : Nat) (m : Option (List Val))
+    (hk : okF fs top m = false) (ht : top = false → 0 < d) :
+    HasHole (wvF fs r d m) (maxDefsF fs d) := by
+  cases fs with
+  | nil => simp [okF] at hk
+  | cons name n fs =>
+    simp only [wvF, maxDefsF]
+    simp only [okF, Bool.and_eq_false_iff] at hk
+    rcases hk with hk | hk
+    · exact hasHole_append_left _ _ (wvN_hole n top r d _ hk ht)
+    · exact hasHole_append_right (wvN_length n r d d _) (wvF_hole fs top r d m hk ht)
+end
+
+/-! ## the optional member: reduction to `wrOptional_sound` -/
+
+/-- the writer that is sound by construction (SPEC side of a node's writer) -/
+def canonW (n : Node) : WriteRows := fun r k d vs =>
+  if vs.isEmpty then absentN n r d else joinSegs (leavesN n) (vs.map (shredN n r k d))
+
+theorem canonW_sound (n : Node) : Sound n (fun _ => canonW n) := by
+  intro dm r k
+  refine ⟨?_, ?_, ?_⟩
+  · intro vs hvs
+    cases vs with
+    | nil => exact absurd rfl hvs
+    | cons v vs => simp [canonW]
+  · intro d _; simp [canonW]
+  · intro d _ c
+    simp [canonW, List.replicate_succ, shredN_none, List.map_replicate]
+
+theorem wvF_some_nil : ∀ (fs : GFields) (r d : Nat), wvF fs r d (Option.some []) = wvF fs r d Option.none
+  | .nil, _, _ => by simp [wvF]
+  | .cons name n fs, r, d => by simp only [wvF, mlookup]; rw [wvF_some_nil fs r d]
+
+theorem wvF_row (fs : GFields) (r k d : Nat) (v : Val) :
+    wvF fs r d (Option.some (elemsS v)) = shredN (.group (eraseGF fs)) r k d (resolveN (.group fs) v) := by
+  cases v with
+  | list es => simp [elemsS, resolveN, shredN, wvF_some fs r k d es]
+  | none => simp [elemsS, resolveN, shredN, wvF_some_nil, wvF_none fs r k d]
+  | prim x => simp [elemsS, resolveN, shredN, wvF_some_nil, wvF_none fs r k d]
+  | struct vs => simp [elemsS, resolveN, shredN, wvF_some_nil, wvF_none fs r k d]
+  | some w => simp [elemsS, resolveN, shredN, wvF_some_nil, wvF_none fs r k d]
+
+theorem wrM2GVal_canon (fs : GFields) (r k d : Nat) (vs : List Val) :
+    wrM2GVal fs r k d vs = canonW (.group (eraseGF fs)) r k d (vs.map (resolveN (.group fs))) := by
+  unfold wrM2GVal canonW
+  cases vs with
+  | nil => simp [wvF_none fs r k d, absentN]
+  | cons v vs =>
+    simp only [List.isEmpty_cons, Bool.false_eq_true, if_false, List.map_cons, leavesN, List.map_map]
+    congr 1
+    simp only [List.cons.injEq]
+    exact ⟨wvF_row fs r k d v, map_congr_mem fun w _ => wvF_row fs r k d w⟩
+
+theorem nullIndexFrom_map {α β : Type} (nz : β → Bool) (g : α → β) : ∀ (vs : List α) (i : Nat) (bits : List (BitVec 64)),
+    nullIndexFrom nz (vs.map g) i bits = nullIndexFrom (fun v => nz (g v)) vs i bits
+  | [], _, _ => rfl
+  | v :: vs, i, bits => by simp only [List.map_cons, nullIndexFrom]; exact nullIndexFrom_map nz g vs (i + 1) _
+
+/-- rows resolved before or after the optional wrapper -/
+theorem wrOptional_map (m : Nat) (inner : WriteRows) (g gO : Val → Val)
+    (h1 : ∀ v, isSome (gO v) = isSome v) (h2 : ∀ v, unopt (gO v) = g (unopt v)) (r k d : Nat) (vs : List Val) :
+    wrOptional m (fun r k d vs => inner r k d (vs.map g)) r k d vs = wrOptional m inner r k d (vs.map gO) := by
+  unfold wrOptional wrOptionalWith
+  have hidx : nullIndex isSome (vs.map gO) = nullIndex isSome vs := by
+    unfold nullIndex
+    rw [nullIndexFrom_map, List.length_map]
+    congr 1
+    funext v; exact h1 v
+  rw [hidx, List.length_map]
+  cases vs with
+  | nil => simp
+  | cons v vs =>
+    simp only [List.isEmpty_cons, List.map_cons, Bool.false_eq_true, if_false]
+    split
+    · congr 1
+      apply map_congr_mem
+      intro run _
+      congr 1
+      simp only [sliceRows, ← List.map_cons, List.map_drop, List.map_take, List.map_map]
+      have hf : (g ∘ unopt) = (unopt ∘ gO) := by funext w; simp [h2 w]
+      rw [hf]
+    · rfl
 
 end PqModel.MapToGroup
